@@ -72,6 +72,14 @@ impl World {
         c.ice_connection_timeout = Duration::from_secs(3600);
         match cfg["sock"].as_str().unwrap() {
             "udp" => {}
+            "mux" => {
+                // process-wide shared socket (single-port multiplexing): a free port of our own
+                let probe = std::net::UdpSocket::bind("127.0.0.1:0").map_err(|e| e.to_string())?;
+                let port = probe.local_addr().unwrap().port();
+                drop(probe);
+                c.ice_udp_mux = true;
+                c.ice_udp_mux_port = Some(port);
+            }
             other => return Err(format!("socket kind {other} not supported by this harness")),
         }
         let (agent, runner) = IceTransportBuilder::new(c).role(role).build();
@@ -216,7 +224,8 @@ impl World {
         t
     }
 
-    async fn send_and_wait_handled(&mut self, from: &str, bytes: &[u8]) -> Result<(), String> {
+    /// Ok(true): the agent handled the packet; Ok(false): the shared-socket demux dropped it.
+    async fn send_and_wait_handled(&mut self, from: &str, bytes: &[u8]) -> Result<bool, String> {
         let h = rustrtc::verif::hash32(bytes);
         let me = self.addrs[from].to_string();
         self.socks[from].send_to(bytes, self.agent_addr).await.map_err(|e| e.to_string())?;
@@ -234,7 +243,7 @@ impl World {
                     for _ in 0..32 {
                         tokio::task::yield_now().await;
                     }
-                    return Ok(());
+                    return Ok(e["ev"] == "pkt_done");
                 }
             }
             if t0.elapsed() > PKT_DEADLINE {
@@ -493,12 +502,13 @@ fn build_response(w: &mut World, b: Builder, tx: [u8; 12], class: &str, mapped: 
 struct Applied {
     reply: Vec<String>,
     builders: Vec<String>,
+    delivered: Vec<bool>,
 }
 
 /// Sends the action's packet(s). For inert expectations both builders are used one after the
 /// other (the state must not move in between); otherwise the first builder only.
 async fn apply(w: &mut World, act: &Value, both: bool, pick: Builder) -> Result<Applied, String> {
-    let mut out = Applied { reply: vec![], builders: vec![] };
+    let mut out = Applied { reply: vec![], builders: vec![], delivered: vec![] };
     match act["op"].as_str().unwrap() {
         "start" => {
             w.agent.add_remote_candidate(IceCandidate::host(w.addrs["P"], 1));
@@ -513,7 +523,8 @@ async fn apply(w: &mut World, act: &Value, both: bool, pick: Builder) -> Result<
                 let bytes = build_request(w, b, act);
                 let mut tx = [0u8; 12];
                 tx.copy_from_slice(&bytes[8..20]);
-                w.send_and_wait_handled(&from, &bytes).await?;
+                let d = w.send_and_wait_handled(&from, &bytes).await?;
+                out.delivered.push(d);
                 // the reply (if any) was sent before the handler finished; give loopback delivery a moment
                 let mut r = w.drain().remove(&tx);
                 let t0 = Instant::now();
@@ -548,7 +559,8 @@ async fn apply(w: &mut World, act: &Value, both: bool, pick: Builder) -> Result<
                 };
                 let mapped = w.agent_addr;
                 let bytes = build_response(w, b, tx, &class, mapped);
-                w.send_and_wait_handled(&from, &bytes).await?;
+                let d = w.send_and_wait_handled(&from, &bytes).await?;
+                out.delivered.push(d);
                 out.builders.push(format!("{b:?}"));
             }
         }
@@ -675,7 +687,9 @@ fn run_group(edges: &[Value], out: &mut Vec<Value>, rng: &mut Rng, stats: &mut B
         let c = world.as_mut().unwrap();
         let before = c.project();
         let pick = if rng.below(2) == 0 { Builder::Repo } else { Builder::StunCrate };
-        let res = c.rt.block_on(apply(&mut c.w, &e["act"], inert, pick));
+        // an input that leaves the whole model state alone is sent twice (both encoders) and the agent is kept
+        let pure = e["pure"].as_bool().unwrap_or(inert);
+        let res = c.rt.block_on(apply(&mut c.w, &e["act"], inert && pure, pick));
         let applied = match res {
             Ok(a) => a,
             Err(err) => {
@@ -686,6 +700,16 @@ fn run_group(edges: &[Value], out: &mut Vec<Value>, rng: &mut Rng, stats: &mut B
         };
         *stats.entry("edges".into()).or_default() += 1;
         *stats.entry(format!("rule_{rule}")).or_default() += 1;
+        if let Some(want) = e["delivered"].as_bool() {
+            if applied.delivered.iter().any(|d| *d != want) {
+                // routing of the shared-socket demux: beyond the property
+                *stats.entry("delivery_mismatch".into()).or_default() += 1;
+                if stats["delivery_mismatch"] <= 20 {
+                    out.push(json!({"type": "drift", "why": {"why": "demux-delivery", "expected": want, "observed": applied.delivered},
+                        "cfg": cfg, "pre": pre, "act": e["act"], "rule": "EXT"}));
+                }
+            }
+        }
         if inert {
             let after = c.project();
             let changed = diff_fields(&before, &after);
@@ -709,6 +733,10 @@ fn run_group(edges: &[Value], out: &mut Vec<Value>, rng: &mut Rng, stats: &mut B
             // beyond the property: an unauthenticated request should not be answered with success
             if rule == "UnauthInert" && applied.reply.iter().any(|r| r == "success") {
                 *stats.entry("unauth_success_reply".into()).or_default() += 1;
+            }
+            if !pure {
+                // the input moved state outside the projection (demux routing): not reusable
+                world.take().unwrap().stop();
             }
         } else {
             // a step the property leaves free: compared with the model under EXT only
@@ -763,7 +791,7 @@ fn main() {
         ngroups += 1;
         // inert edges first (they share one agent), then the state-changing ones (one agent each)
         let mut es = es.clone();
-        es.sort_by_key(|e| !e["inert"].as_bool().unwrap());
+        es.sort_by_key(|e| (!e["pure"].as_bool().unwrap_or(e["inert"].as_bool().unwrap()), !e["inert"].as_bool().unwrap()));
         let mut grng = Rng(rng.next() ^ gi as u64);
         let g0 = Instant::now();
         let n0 = out.len();
